@@ -124,7 +124,12 @@ def build_lib(th, variant):
     if san:
         extra += " " + SAN[san]
         ld = SAN[san].split(" -fno-omit")[0]
-    cmd = ["cmake", os.path.join(REPO, "src"), "-DCMAKE_BUILD_TYPE=" + bt, "-DENABLE_TESTS=off",
+    hsw = []
+    if bt == "hsw":
+        # valgrind twin: the optim flags with -march=haswell (valgrind 3.19 cannot execute the AVX-512 code -march=native emits here)
+        hsw = ["-DCMAKE_CXX_FLAGS_HSW=-std=gnu++11 -g3 -march=haswell -O2 -DNDEBUG -funroll-loops -Wall -Werror",
+               "-DCMAKE_C_FLAGS_HSW=-g3 -march=haswell -O3 -DNDEBUG -funroll-loops -Wall -Werror"]
+    cmd = ["cmake", os.path.join(REPO, "src"), "-DCMAKE_BUILD_TYPE=" + bt, "-DENABLE_TESTS=off"] + hsw + [
            "-DENABLE_FFTW=on", "-DENABLE_NAYUKI_PORTABLE=on", "-DENABLE_NAYUKI_AVX=on",
            "-DENABLE_SPQLIOS_AVX=on", "-DENABLE_SPQLIOS_FMA=on",
            "-DCMAKE_CXX_FLAGS=" + extra, "-DCMAKE_C_FLAGS=" + extra,
